@@ -67,6 +67,22 @@ CLAIMS["C10"] = dict(
     design="DESIGN.md section 4, C10",
 )
 
+CLAIMS["C07"] = dict(
+    text=("Deductive proof of the per-packet resynchronisation clauses of the stateful depacketizers under contract: a start packet determines "
+          "the decoder state by itself (whatever partial state was left behind), a continuation packet carrying the expected sequence number "
+          "while a frame is in progress is accepted, any other continuation is refused and the partial frame dropped, and a completed frame "
+          "leaves no partial state. These clauses give the property's conclusion by induction over the packet history."),
+    note=TRUST + "The induction over the packet history is an argument in DESIGN.md, not a machine-checked lemma. Decoders covered are listed in the evidence (functions_under_contract); the others are not decided.",
+    design="DESIGN.md section 4, C07",
+)
+CLAIMS["C03"] = dict(
+    text=("Deductive proof, for the packetizers whose payloads are windows of the input (rtpfragmented, rtpklv, rtplpcm, rtpsimpleaudio), "
+          "that the emitted payloads tile the input frame in order with no gap or overlap (same backing array, offset j*limit, lengths summing "
+          "to the frame length), which is exactly what the corresponding depacketizer concatenates."),
+    note=TRUST + "Only the encoder half (tiling) is machine-checked; the decoder's concatenation is covered by its C08 contract, and the remaining codecs (H264/H265/AV1/VP8/VP9/MPEG/AC-3/M-JPEG bit-level headers) are not decided for round-trip identity.",
+    design="DESIGN.md section 4, C03",
+)
+
 NOT_APPLICABLE = {
     "C11": "process-level property over channels, goroutines and timeouts (no deadlock, cleanup of goroutines/sessions): not expressible as a contract on one call or one data structure; the leaf validators it relies on are covered under other properties",
     "C13": "liveness and schedule property (Close returns in bounded time under all interleavings, no leaked goroutine or socket, callback ordering): outside sequential contract-based verification",
